@@ -71,13 +71,19 @@ theorem absT_normRoot (dt : Data) (s : Store) : absT (normRoot dt s) = absT s :=
 /-- a chain state: the store invariants hold and the store represents a well-formed tree on `D` -/
 def StOK (p : Params) (D : List ℕ) (s : Store) : Prop := SInv p.dt s ∧ Holds p.c D (absT s)
 
-/-- **the sampler oracle realises the sweep model** of phase `ph` on the chain states -/
+/-- **the sampler oracle realises the sweep model** of phase `ph` in iteration `i` at the store `s`:
+what it returns is reached from `s` by a legal edit history, and the tree it represents is listed by
+the sweep model for the tree `s` represents (for some concentration value) -/
+def RealisesAt (p : Params) (ph : Phase) (mv : ℕ → Store → Store) (i : ℕ) (s : Store) : Prop :=
+  LegalFrom p.dt s (mv i s) ∧ ∃ α, SweepOut p ph α (absT s) (absT (mv i s))
+
+/-- the same on every chain state (a stronger hypothesis) -/
 def Realises (p : Params) (D : List ℕ) (ph : Phase) (mv : ℕ → Store → Store) : Prop :=
-  ∀ i s, StOK p D s → LegalFrom p.dt s (mv i s) ∧ ∃ α, SweepOut p ph α (absT s) (absT (mv i s))
+  ∀ i s, StOK p D s → RealisesAt p ph mv i s
 
 theorem stOK_step {p : Params} {D : List ℕ} (hNZ : DataNZ p.dt) {ph : Phase} {mv : ℕ → Store → Store}
-    (hR : Realises p D ph mv) (i : ℕ) {s : Store} (hs : StOK p D s) : StOK p D (mv i s).relabelNodes := by
-  obtain ⟨hleg, α, hsw⟩ := hR i s hs
+    {i : ℕ} {s : Store} (hR : RealisesAt p ph mv i s) (hs : StOK p D s) : StOK p D (mv i s).relabelNodes := by
+  obtain ⟨hleg, α, hsw⟩ := hR
   refine ⟨sinv_relabel (sinv_of_legalFrom hNZ hs.1 hleg), ?_⟩
   rw [absT_relabel]
   exact sweep_holds p ph α hs.2 hsw
@@ -87,16 +93,25 @@ def burnState (mv : ℕ → Store → Store) : ℕ → Store → Store
   | 0, s => s
   | b + 1, s => (mv b (burnState mv b s)).relabelNodes
 
-theorem burnState_ok {p : Params} {D : List ℕ} (hNZ : DataNZ p.dt) {mv : ℕ → Store → Store}
-    (hR : Realises p D .burnin mv) {s0 : Store} (h0 : StOK p D s0) : ∀ b, StOK p D (burnState mv b s0) := by
+theorem burnState_ok {p : Params} {D : List ℕ} (hNZ : DataNZ p.dt) {mv : ℕ → Store → Store} {s0 : Store}
+    (h0 : StOK p D s0) : ∀ b, (∀ i, i < b → RealisesAt p .burnin mv i (burnState mv i s0)) →
+      StOK p D (burnState mv b s0) := by
   intro b
   induction b with
-  | zero => exact h0
-  | succ b ih => exact stOK_step hNZ hR b ih
+  | zero => intro _; exact h0
+  | succ b ih =>
+    intro hR
+    exact stOK_step hNZ (hR b (Nat.lt_succ_self b)) (ih fun i hi => hR i (Nat.lt_succ_of_lt hi))
 
-theorem stateAt_ok {p : Params} {D : List ℕ} (hNZ : DataNZ p.dt) {o : Oracles} (hR : Realises p D .main o.moves)
-    (cu : Bool) {st0 : St} (h0 : StOK p D st0.tree) : ∀ k, StOK p D (stateAt o cu st0 k).tree :=
-  stateAt_inv o cu st0 (StOK p D) h0 (fun i _ hs => stOK_step hNZ hR i hs)
+theorem stateAt_ok {p : Params} {D : List ℕ} (hNZ : DataNZ p.dt) {o : Oracles} (cu : Bool) {st0 : St}
+    (h0 : StOK p D st0.tree) : ∀ k, (∀ i, i < k → RealisesAt p .main o.moves i (stateAt o cu st0 i).tree) →
+      StOK p D (stateAt o cu st0 k).tree := by
+  intro k
+  induction k with
+  | zero => intro _; exact h0
+  | succ k ih =>
+    intro hR
+    exact stOK_step hNZ (hR k (Nat.lt_succ_self k)) (ih fun i hi => hR i (Nat.lt_succ_of_lt hi))
 
 theorem stateAt_alpha_pos {o : Oracles} (hc : ∀ i α s, 0 < α → 0 < o.conc i α s) (cu : Bool) {st0 : St}
     (h0 : 0 < st0.alpha) : ∀ k, 0 < (stateAt o cu st0 k).alpha := by
@@ -110,6 +125,22 @@ theorem stateAt_alpha_pos {o : Oracles} (hc : ∀ i α s, 0 < α → 0 < o.conc 
     split
     · exact hc _ _ _ ih
     · exact ih
+
+/-- every entry of the trace is built from a chain state reached within the `num_iters` iterations -/
+theorem mem_trace_le (dt : Data) (o : Oracles) (cu : Bool) (thin numIters : ℕ) (st0 : St) (e : Entry)
+    (he : e ∈ (runMain dt o cu thin numIters st0).1) :
+    ∃ j t k, k ≤ numIters ∧ e = mkEntry dt j t (stateAt o cu st0 k) := by
+  obtain ⟨m, hm, hle, _⟩ := runMain_spec dt o cu thin numIters st0
+  rw [hm] at he
+  simp only [List.mem_cons, List.mem_map] at he
+  rcases he with rfl | ⟨j, hj, rfl⟩
+  · exact ⟨0, o.clock 0, 0, Nat.zero_le _, rfl⟩
+  · refine ⟨j, o.clock j, j + 1, ?_, rfl⟩
+    have : j < m := by
+      have := (List.mem_filter.1 hj).1
+      simp only [List.mem_range'_1] at this
+      omega
+    omega
 
 /-- a store representing a tree on `0 .. n-1` lists every data point exactly once -/
 theorem dataComplete_of_holds {c : Proposal.Cfg} {n : ℕ} {s : Store} (hw : WF s)
@@ -144,18 +175,20 @@ theorem run_entries_ok_proof (p : Params) (hG : 0 < p.dt.G)
     (hL : ∀ i s k, i < p.dt.n → s < p.dt.S → k < p.dt.G → 0 < getQ (p.dt.L i s) k)
     (hop : ∀ i, i < p.dt.n → 0 ≤ p.dt.opOf i ∧ p.dt.opOf i < 1)
     (s0 : Store) (h0 : StOK p (List.range p.dt.n) s0)
-    (mvB : ℕ → Store → Store) (hB : Realises p (List.range p.dt.n) .burnin mvB) (b : ℕ)
-    (o : Oracles) (hM : Realises p (List.range p.dt.n) .main o.moves)
-    (hconc : ∀ i α s, 0 < α → 0 < o.conc i α s) (α0 : ℚ) (hα0 : 0 < α0) (cu : Bool) (thin numIters : ℕ) :
+    (mvB : ℕ → Store → Store) (b : ℕ) (hB : ∀ i, i < b → RealisesAt p .burnin mvB i (burnState mvB i s0))
+    (o : Oracles) (hconc : ∀ i α s, 0 < α → 0 < o.conc i α s) (α0 : ℚ) (hα0 : 0 < α0) (cu : Bool)
+    (thin numIters : ℕ)
+    (hM : ∀ k, k < numIters →
+      RealisesAt p .main o.moves k (stateAt o cu ⟨burnState mvB b s0, α0⟩ k).tree) :
     ∀ e ∈ (runMain p.dt o cu thin numIters ⟨burnState mvB b s0, α0⟩).1,
       ∃ s', fromDict p.dt e.tree = some s' ∧ SInv p.dt s' ∧ dataCompleteB p.dt.n s' = true ∧
         Holds p.c (List.range p.dt.n) (absT s') ∧ pOneC p.dt e.alpha s' = e.logPOne ∧ 0 < e.logPOne := by
   have hNZ : DataNZ p.dt := fun i s k hi hs hk => ne_of_gt (hL i s k hi hs hk)
   intro e he
-  obtain ⟨j, t, k, rfl⟩ := mem_trace p.dt o cu thin numIters _ e he
+  obtain ⟨j, t, k, hkle, rfl⟩ := mem_trace_le p.dt o cu thin numIters _ e he
   set st0 : St := ⟨burnState mvB b s0, α0⟩
   have hk : StOK p (List.range p.dt.n) (stateAt o cu st0 k).tree :=
-    stateAt_ok hNZ hM cu (st0 := st0) (burnState_ok hNZ hB h0 b) k
+    stateAt_ok hNZ cu (st0 := st0) (burnState_ok hNZ h0 b hB) k (fun i hi => hM i (by omega))
   have hα : 0 < (stateAt o cu st0 k).alpha := stateAt_alpha_pos hconc cu (st0 := st0) hα0 k
   have hwfd := wfd_of_shared p.dt _ hk.1.1 hk.1.2.1 hk.1.2.2.1 hk.1.2.2.2
   obtain ⟨hr1, hr2⟩ := mkEntry_restores p.dt j t (stateAt o cu st0 k) hwfd
